@@ -5,7 +5,7 @@ From Coq Require Extraction ExtrOcamlBasic.
 From SV Require Import Base Regex Calendar Inputs Tree IR Match AttrPat Cache Parser Diag.
 From SV.gen Require Import RegexGen PureGen ConstGen.
 Extraction Language OCaml.
-Extraction "sv.ml" pattern_table rmatch rsearch finditer
+Extraction "sv.ml" pattern_table rmatch rsearch finditer ends_count
   parse_value match_range validate_day validate_week iso_weeks
   api_match api_select api_filter api_closest bidi_of extended_language_filter attr_template lru_trace
   compile css_unescape escape parse_anb get_pattern_context line_col pretty.
